@@ -338,7 +338,9 @@ func runC14(w *World, r *Report, tier string) {
 				arg = origin(mi.X)
 			}
 			fields, al := complitFields(arg)
-			if al == nil || !strings.HasSuffix(w.typeStr(al.Type()), "stanza.SASLAuth") {
+			if len(plain.Params) < 5 {
+				r.Undecided("O4", "xmpp.authPlain#element", w.ipos(mc), "authPlain no longer takes (socket, decoder, mech, user, secret): the payload rule identifies the mechanism, the user and the secret by these parameters")
+			} else if al == nil || !strings.HasSuffix(w.typeStr(al.Type()), "stanza.SASLAuth") {
 				r.Undecided("O4", "xmpp.authPlain#element", w.ipos(mc), "the marshalled value is not a SASLAuth literal")
 			} else {
 				r.Check(origin(fields["Mechanism"]) == ssa.Value(plain.Params[2]), "O4", "xmpp.authPlain#mechanism", w.ipos(al), "the element does not name the chosen mechanism", "Mechanism = mech parameter")
